@@ -55,7 +55,7 @@ def model_with_field(t):
 
 
 def model_with_expr(e):
-    return BASE + ("Hole: !record\n  fields:\n    a: int32[x, y]\n    fa: int32[x:2, y:3]\n    ua: !array {items: int32, dimensions: 2}\n    ma: !array {items: int32, dimensions: [x, null, 3]}\n    da: int32[]\n    b: float64\n    v: int32*4\n    m: string->int32\n    r: Rec\n    u: [int32, string]\n"
+    return BASE + ("Hole: !record\n  fields:\n    a: int32[x, y]\n    fa: int32[x:2, y:3]\n    ua: !array {items: int32, dimensions: 2}\n    ma: !array {items: int32, dimensions: [x, null, z]}\n    da: int32[]\n    b: float64\n    v: int32*4\n    m: string->int32\n    r: Rec\n    u: [int32, string]\n"
                    "    o: int32?\n    s: string\n    e: En\n  computedFields:\n    c: %s\n" % json.dumps(e))
 
 
@@ -140,6 +140,11 @@ def run(ctx):
     rng = ctx.rng
     cases = []          # (kind, files, manifest, cmd)
     ok_pkg = "namespace: Fz\n"
+    # self-check of the harness: the carrier models must be valid when the hole holds something valid
+    for label, text in (("type", model_with_type("int32")), ("field", model_with_field("int32")), ("expression", model_with_expr("b + 1"))):
+        rc0, out0, _ = run_case(ctx, 900000 + len(label), {"m/m.yml": text}, ok_pkg, "validate")
+        if rc0 != 0:
+            raise RuntimeError("the %s carrier model of the fuzz harness is rejected by yardl: %s" % (label, out0[-300:]))
     for t in TYPE_ATOMS + TAGGED:
         cases.append(("type", {"m/m.yml": model_with_type(t)}, ok_pkg, "validate"))
         cases.append(("type-in-field", {"m/m.yml": model_with_field(t)}, ok_pkg, "validate"))
